@@ -216,6 +216,12 @@ func (w *Worker) structFieldType() types.Type { return w.P.structFieldT }
 var interpretablePrefixes = []string{
 	"github.com/titpetric/vuego",
 	"golang.org/x/net/html",
+	// small pure-Go generic helpers a change to the repository may start using
+	"slices",
+	"maps",
+	"cmp",
+	"iter",
+	"math/bits",
 }
 
 // std functions that are pure, small and independent of package state are
